@@ -6,6 +6,11 @@ shifts, plain rows, n/a rows) with every choice of "equal onset | one second lat
 goes through TabularInput -> hed.tools.analysis.event_manager.EventManager (and HedTagManager) and is compared with
 `contexts_spec(history)`, an interval computation written from the property text.
 
+Part 'several': one cell of the history carries two or three temporal groups with their own Delay shifts (equal and
+different shifts, in and against text order, seconds and milliseconds); every shifted group is its own event at
+onset + delay.  Part 'spelling': the tags Def, Onset, Offset, Delay, Duration in lower, upper and mixed case (HED tags
+are case-insensitive) - same expected table.
+
 Processes are recognised in the reported strings by their definition name (Def/<name>) or, for Duration processes, by a
 unique Label/d<k> inside their content group; plain annotation by a unique Label/r<row>.
 """
@@ -28,6 +33,7 @@ DEFS = ["(Definition/Aa, (Red))", "(Definition/Cc/#, (Label/#))"]
 #   ("on", name, delay, with_group)   (Def/name, Onset[, (Green)][, Delay/d s])
 #   ("off", name, delay)              (Def/name, Offset[, Delay/d s])
 #   ("dur", text, seconds, delay)     (Duration/text[, Delay/d s], (Label/dK))
+#   ("multi", (cell, cell[, cell]))   several of the three kinds above in ONE row; the Delay of the 2nd group is in ms
 FULL = [
     ("none",), ("na",),
     ("on", "Aa", None, False), ("on", "aa", None, True), ("off", "Aa", None), ("off", "AA", None),
@@ -45,6 +51,25 @@ SMALL = [
 ]
 TINY = [("none",), ("on", "Aa", None, False), ("off", "Aa", None), ("on", "Aa", 1.0, True), ("dur", "1 s", 1.0, None),
         ("dur", "2 s", 2.0, 0.5)]
+MULTI = [
+    ("multi", (("dur", "2 s", 2.0, 1.0), ("dur", "3 s", 3.0, 2.0))),                 # different shifts, text order
+    ("multi", (("on", "Aa", 1.0, False), ("on", "Cc/1", 2.0, True))),                # two names
+    ("multi", (("on", "Aa", 0.5, False), ("off", "aa", 1.5))),                       # starts and ends its own process
+    ("multi", (("off", "Aa", 1.5), ("on", "Aa", 0.5, True))),                        # the same against text order
+    ("multi", (("off", "Aa", 0.5), ("on", "AA", 1.5, False))),                       # ends an open process, restarts it
+    ("multi", (("on", "Aa", 1.0, False), ("dur", "1 s", 1.0, 1.0))),                 # equal shifts
+    ("multi", (("on", "Aa", 0.5, True), ("on", "Cc/1", 0.5, False))),                # equal shifts, two names
+    ("multi", (("dur", "0.5 s", 0.5, 0.5), ("dur", "500 ms", 0.5, 0.5))),            # equal shifts, equal lengths
+    ("multi", (("dur", "2000 ms", 2.0, 2.0), ("dur", "1 s", 1.0, 0.5))),             # against text order
+    ("multi", (("on", "Aa", 0.5, False), ("dur", "500 ms", 0.5, 1.0), ("off", "aa", 2.0))),
+    ("multi", (("dur", "1 s", 1.0, 0.0), ("dur", "2 s", 2.0, 0.5), ("on", "Cc/1", 1.0, False))),
+    ("multi", (("on", "Aa", None, False), ("off", "Aa", 1.0), ("dur", "1 s", 1.0, 0.5))),    # one unshifted group too
+    ("multi", (("dur", "1 s", 1.0, 1.5), ("on", "Cc/1", 1.5, False), ("dur", "10 s", 10.0, 0.5))),
+]
+STYLES = {0: "canonical", 1: "lower", 2: "upper", 3: "mixed"}
+L_CASE_DELAY = "C20.delay.case_insensitive"
+L_CASE_TAGS = "C20.tags.case_insensitive"
+L_SEVERAL = "C20.delay.several_groups_in_one_row"
 
 
 # ----------------------------------------------------------------------------------------------------------------
@@ -61,37 +86,70 @@ def history_rows(cells, gaps):
     return rows
 
 
-def cell_text(i, cell):
+def spell(word, style, k=0):
+    """a reserved tag name in the letter case of `style`; mixed: alternating case, the starting case alternates with k"""
+    if style == 1:
+        return word.lower()
+    if style == 2:
+        return word.upper()
+    if style == 3:
+        return "".join(ch.upper() if (j + k) % 2 else ch.lower() for j, ch in enumerate(word))
+    return word
+
+
+def atoms(cell):
+    """the temporal groups of a cell: [(position in the row or None for a single-group cell, group cell)]"""
+    if cell[0] == "multi":
+        return list(enumerate(cell[1]))
+    return [(None, cell)] if cell[0] in ("on", "off", "dur") else []
+
+
+def dur_id(i, j):
+    return f"d{i}" if j is None else f"d{100 + 10 * i + j}"
+
+
+def delay_of(g):
+    return g[3] if g[0] == "dur" else g[2]
+
+
+def group_text(i, j, g, style=0):
+    k = g[0]
+    v = i + (j or 0)
+    delay = delay_of(g)
+    dl = []
+    if delay is not None:       # the second group of a row gives its shift in milliseconds
+        dl = [f"{spell('Delay', style, v)}/{delay * 1000:g} ms" if j == 1 else f"{spell('Delay', style, v)}/{delay:g} s"]
+    if k == "on":
+        parts = [f"{spell('Def', style, v)}/{g[1]}", spell("Onset", style, v)] + (["(Green)"] if g[3] else []) + dl
+    elif k == "off":
+        parts = [f"{spell('Def', style, v)}/{g[1]}", spell("Offset", style, v)] + dl
+    else:
+        parts = [f"{spell('Duration', style, v)}/{g[1]}"] + dl + [f"(Label/{dur_id(i, j)})"]
+    return "(" + ", ".join(parts) + ")"
+
+
+def cell_text(i, cell, style=0):
     k = cell[0]
     plain = f"Label/r{i}"
     if k == "na":
         return "n/a"
     if k == "none":
         return plain
-    if k == "on":
-        _, name, delay, grp = cell
-        parts = [f"Def/{name}", "Onset"] + (["(Green)"] if grp else []) + ([f"Delay/{delay:g} s"] if delay is not None else [])
-    elif k == "off":
-        _, name, delay = cell
-        parts = [f"Def/{name}", "Offset"] + ([f"Delay/{delay:g} s"] if delay is not None else [])
-    else:
-        _, text, _, delay = cell
-        parts = [f"Duration/{text}"] + ([f"Delay/{delay:g} s"] if delay is not None else []) + [f"(Label/d{i})"]
-    grp = "(" + ", ".join(parts) + ")"
-    return f"{grp}, {plain}" if i % 2 == 0 else f"{plain}, {grp}"
+    groups = [group_text(i, j, g, style) for j, g in atoms(cell)]
+    if i % 2 == 0:
+        return ", ".join(groups + [plain])
+    return ", ".join(groups[:-1] + [plain] + groups[-1:]) if len(groups) > 1 else f"{plain}, {groups[0]}"
 
 
 def events_of(rows):
-    """[(effective time, row, kind, key)]: kind in on/off/dur; key = def name+value casefolded or ('dur', row, seconds)"""
+    """[(effective time, row, kind, key)]: kind in on/off/dur; key = def name+value casefolded or (seconds, Label id)"""
     ev = []
     for i, (t, cell) in enumerate(rows):
-        k = cell[0]
-        if k == "on":
-            ev.append((t + (cell[2] or 0.0), i, "on", cell[1].casefold()))
-        elif k == "off":
-            ev.append((t + (cell[2] or 0.0), i, "off", cell[1].casefold()))
-        elif k == "dur":
-            ev.append((t + (cell[3] or 0.0), i, "dur", cell[2]))
+        for j, g in atoms(cell):
+            if g[0] in ("on", "off"):
+                ev.append((t + (g[2] or 0.0), i, g[0], g[1].casefold()))
+            else:
+                ev.append((t + (g[3] or 0.0), i, "dur", (g[2], dur_id(i, j))))
     return ev
 
 
@@ -127,7 +185,7 @@ def contexts_spec(rows):
             later = [e[0] for e in ev if e[2] in ("on", "off") and e[3] == key and e[0] > t]
             procs.append(("def:" + key, t, min(later) if later else None))
         elif kind == "dur":
-            procs.append((f"dur:d{i}", t, t + key))
+            procs.append((f"dur:{key[1]}", t, t + key[0]))
     table = {}
     for t in times:
         started = sorted(p[0] for p in procs if p[1] == t)
@@ -140,10 +198,10 @@ def contexts_spec(rows):
 # ----------------------------------------------------------------------------------------------------------------
 # observation
 # ----------------------------------------------------------------------------------------------------------------
-_DEF = re.compile(r"Def/([^,()]+)")
+_DEF = re.compile(r"(?i:def)/([^,()]+)")          # reserved tags are quoted as written: any letter case
 _DUR = re.compile(r"Label/(d\d+)")
 _ROW = re.compile(r"Label/(r\d+)")
-_TEMPORAL_WORD = re.compile(r"(?<![\w/-])(Onset|Offset|Duration/|Delay/)")
+_TEMPORAL_WORD = re.compile(r"(?i)(?<![\w/-])(Onset|Offset|Duration/|Delay/)")
 
 
 def ids(text):
@@ -161,12 +219,49 @@ def _dd():
     return _state["dd"]
 
 
-def frame(rows):
+def frame(rows, style=0):
     import pandas as pd
-    return pd.DataFrame({"onset": [f"{t:g}" for t, _ in rows], "HED": [cell_text(i, c) for i, (t, c) in enumerate(rows)]})
+    return pd.DataFrame({"onset": [f"{t:g}" for t, _ in rows],
+                         "HED": [cell_text(i, c, style) for i, (t, c) in enumerate(rows)]})
 
 
-def check_history(rows):
+def has_delay(rows):
+    return any(delay_of(g) is not None for _, c in rows for _, g in atoms(c))
+
+
+def several_delays_in_a_row(rows):
+    return any(sum(delay_of(g) is not None for _, g in atoms(c)) > 1 for _, c in rows)
+
+
+def one_group_per_row(rows):
+    """the same history with every group of a several-group cell in a row of its own (same onset, same order)"""
+    out = []
+    for t, c in rows:
+        if c[0] == "multi":
+            out += [(t, g) for g in c[1]]
+        else:
+            out.append((t, c))
+    return out
+
+
+def judge(rows, style=0):
+    """check_history + attribution of a mismatch to the narrow requirement it depends on: the letter case of the
+    reserved tags (the canonical spelling of the same file is judged correct) or several Delay groups sharing a row
+    (the same history with one group per row is judged correct)"""
+    fails = check_history(rows, style)
+    if not fails:
+        return fails
+    if style and not check_history(rows, 0):
+        label = L_CASE_DELAY if has_delay(rows) else L_CASE_TAGS
+        return [(label, obs, {"expected": exp, "clause": cl, "note": "no mismatch with the canonical spelling"})
+                for cl, obs, exp in fails]
+    if several_delays_in_a_row(rows) and not check_history(one_group_per_row(rows), style):
+        return [(L_SEVERAL, obs, {"expected": exp, "clause": cl, "note": "no mismatch with one group per row"})
+                for cl, obs, exp in fails]
+    return fails
+
+
+def check_history(rows, style=0):
     """returns list of (clause, observed, expected)"""
     from hed.models import TabularInput
     from hed.tools.analysis.event_manager import EventManager
@@ -174,7 +269,7 @@ def check_history(rows):
     fails = []
     sch = schema()
     try:
-        em = EventManager(TabularInput(frame(rows), name="c20"), sch, extra_defs=_dd())
+        em = EventManager(TabularInput(frame(rows, style), name="c20"), sch, extra_defs=_dd())
         onsets = [float(x) for x in em.onsets]
         base, ctxs, heds = list(em.base), list(em.contexts), [str(h) for h in em.hed_strings]
     except Exception as e:  # noqa
@@ -211,7 +306,7 @@ def check_history(rows):
     left = [h for h in heds if _TEMPORAL_WORD.search(h)]
     if left:
         fails.append(("C20.remaining.without_temporal_groups", left, []))
-    bad = [s for s in base + ctxs if re.search(r"(?<![\w/-])(Onset|Offset|Duration/)", s)]
+    bad = [s for s in base + ctxs if re.search(r"(?i)(?<![\w/-])(Onset|Offset|Duration/)", s)]
     if bad:
         fails.append(("C20.process.content_without_onset_or_duration_tag", bad, []))
     # HedTagManager: hed + base + (Event-context, (context)) per entry
@@ -277,32 +372,77 @@ def gen_histories(quick):
                     yield rows
 
 
+def gen_several(quick):
+    """valid histories with exactly one several-group cell (MULTI) among cells of a small alphabet, every position, every
+    gap pattern; yields (rows, style) with the letter-case style rotating over the histories"""
+    plan = [((), 1), (SMALL, 2)] + ([(TINY, 3)] if quick else [(SMALL, 3), (TINY, 4)])
+    no = 0
+    for alpha, n in plan:
+        for others in itertools.product(alpha, repeat=n - 1):
+            for pos in range(n):
+                for m in MULTI:
+                    cells = others[:pos] + (m,) + others[pos:]
+                    for gaps in itertools.product((0, 1), repeat=n - 1):
+                        rows = history_rows(cells, gaps)
+                        if is_valid(rows):
+                            no += 1
+                            yield rows, no % 4
+
+
+def gen_spelling(quick):
+    """lower / upper / mixed-case copies of the one- and two-row histories over FULL that hold a temporal group, and
+    one rotating spelling for the three-row histories over SMALL that hold a Delay"""
+    no = 0
+    for alpha, n in [(FULL, 1), (FULL, 2), (SMALL, 3)]:
+        for cells in itertools.product(alpha, repeat=n):
+            for gaps in itertools.product((0, 1), repeat=n - 1):
+                rows = history_rows(cells, gaps)
+                if not is_valid(rows) or not any(atoms(c) for c in cells):
+                    continue
+                if n <= 2:
+                    for st in (1, 2, 3):
+                        yield rows, st
+                elif has_delay(rows):
+                    no += 1
+                    if not quick or no % 2 == 0:
+                        yield rows, 1 + no % 3
+
+
 def nontrivial(rows):
-    return any(c[0] in ("on", "dur") for _, c in rows)
+    return any(g[0] in ("on", "dur") for _, c in rows for _, g in atoms(c))
 
 
 def _worker(chunk):
     schema()
     out = []
-    for rows in chunk:
-        for clause, obs, exp in check_history(rows):
-            out.append((clause, {"part": "contexts", "rows": _rows_json(rows), "file": _file_json(rows)}, obs, exp))
-        if len({t for t, _ in rows}) > 1 and len(rows) <= 3:
+    for part, rows, style in chunk:
+        for clause, obs, exp in judge(rows, style):
+            out.append((clause, {"part": part, "rows": _rows_json(rows), "style": style, "file": _file_json(rows, style)},
+                        obs, exp))
+        if part == "contexts" and len({t for t, _ in rows}) > 1 and len(rows) <= 3:
             for clause, obs, exp in check_unordered(rows):
                 out.append((clause, {"part": "unordered", "rows": _rows_json(rows)}, obs, exp))
     return out
 
 
+def _listify(x):
+    return [_listify(y) for y in x] if isinstance(x, (tuple, list)) else x
+
+
+def _tuplify(x):
+    return tuple(_tuplify(y) for y in x) if isinstance(x, (tuple, list)) else x
+
+
 def _rows_json(rows):
-    return [[t, list(c)] for t, c in rows]
+    return [[t, _listify(c)] for t, c in rows]
 
 
-def _file_json(rows):
-    return [[f"{t:g}", cell_text(i, c)] for i, (t, c) in enumerate(rows)]
+def _file_json(rows, style=0):
+    return [[f"{t:g}", cell_text(i, c, style)] for i, (t, c) in enumerate(rows)]
 
 
 def _rows_from_json(j):
-    return [(float(t), tuple(c)) for t, c in j]
+    return [(float(t), _tuplify(c)) for t, c in j]
 
 
 def run(w: Workload):
@@ -312,7 +452,9 @@ def run(w: Workload):
               "variants, with/without content group, Delay 0/0.5/1/1.5 s) and Cc/1, Duration 0.5/1/2/10 s and 500/2000 ms "
               "without and with Delay 0/0.5/1.5 s.  Invalid histories (Offset without open Onset, a name twice at one time "
               "point) are dropped.  Non-trivial = at least one process starts.  Reversed files (n<=3, >=2 distinct times) "
-              "must be rejected.")
+              "must be rejected.  several: histories with one row carrying 2-3 temporal groups with their own Delay shifts; "
+              "spelling: respelled (lower/upper/mixed case reserved tags) copies of short histories; both judged by the "
+              "same interval computation.")
     hist = list(gen_histories(w.quick))
     n_un = 0
     for rows in hist:
@@ -320,20 +462,38 @@ def run(w: Workload):
         if len({t for t, _ in rows}) > 1 and len(rows) <= 3:
             n_un += 1
             w.case(("unordered", repr(rows)), sample=None)
-    chunks = [hist[i:i + 100] for i in range(0, len(hist), 100)]
+    several = list(gen_several(w.quick))
+    spelled = list(gen_spelling(w.quick))
+    for part, lst in (("several", several), ("spelling", spelled)):
+        for rows, style in lst:
+            w.case((part, repr(rows), style), nontrivial=nontrivial(rows),
+                   sample={"file": _file_json(rows, style), "spelling": STYLES[style]})
+    work = [("contexts", rows, 0) for rows in hist] + [("several", r, st) for r, st in several] \
+        + [("spelling", r, st) for r, st in spelled]
+    chunks = [work[i:i + 100] for i in range(0, len(work), 100)]
     records = []
     with multiprocessing.Pool(min(14, max(1, multiprocessing.cpu_count() - 2))) as pool:
         for out in pool.imap(_worker, chunks):
             records.extend(out)
     def _simple_first(r):     # stored (capped) failures: fewest rows, no Delay, Onset before Duration
         rows = r[1]["rows"]
-        delayed = sum(1 for _, c in rows if (c[0] in ("on", "off") and c[2] is not None) or (c[0] == "dur" and c[3] is not None))
-        return (delayed, len(rows), sum(c[0] == "dur" for _, c in rows), repr(rows))
+        delayed = sum(1 for _, c in rows for _, g in atoms(c) if delay_of(g) is not None)
+        return (delayed, len(rows), sum(g[0] == "dur" for _, c in rows for _, g in atoms(c)), repr(rows))
     records.sort(key=_simple_first)
     for clause, inp, obs, exp in records:
         w.fail(clause, inp, observed=obs, expected=exp)
     w.part("contexts", cases=len(hist), bound="valid histories up to %d rows (see rule)" % (4 if w.quick else 5),
            exhaustive=True)
+    w.part("several", cases=len(several),
+           bound="valid histories of 1-%s rows with exactly one of %d cells holding 2-3 temporal groups with their own Delay "
+                 "(equal / different shifts, in and against text order, s and ms, Onset/Offset/Duration mixes, optionally one "
+                 "unshifted group), at every position among cells of the 10-cell alphabet (2%s rows) or the 6-cell alphabet "
+                 "(%d rows), every gap pattern; letter-case style rotates canonical/lower/upper/mixed"
+                 % (("3", len(MULTI), "", 3) if w.quick else ("4", len(MULTI), "-3", 4)), exhaustive=True)
+    w.part("spelling", cases=len(spelled),
+           bound="Def/Onset/Offset/Delay/Duration in lower, upper and mixed case: every valid 1-2 row history over the 22-cell "
+                 "alphabet with a temporal group (all three spellings); %s valid 3-row history over the 10-cell alphabet with "
+                 "a Delay (one spelling, rotating)" % ("every second" if w.quick else "every"), exhaustive=True)
     w.part("unordered", cases=n_un, bound="the reversed file of every history with <=3 rows and >=2 distinct onsets",
            exhaustive=True)
     w.exhaustive = True
@@ -347,14 +507,15 @@ def run(w: Workload):
     w.not_covered += [
         "unfold_context / get_hed_objs with remove_types (type and definition filtering) and replace_defs",
         "Inset groups, invalid files (unmatched Offset -> KeyError), onsets that are not numbers",
-        "more than one temporal group per row; more than two definition names",
+        "more than one temporal group per row other than the listed several-group cells; more than two definition names",
+        "letter case of unit names; Delay units other than s and ms (rt.c07)",
     ]
 
 
 def replay(w: Workload, case: dict):
     inp = case["input"]
     rows = _rows_from_json(inp["rows"])
-    fails = check_unordered(rows) if inp.get("part") == "unordered" else check_history(rows)
+    fails = check_unordered(rows) if inp.get("part") == "unordered" else judge(rows, int(inp.get("style") or 0))
     for clause, obs, exp in fails:
         w.fail(clause, inp, observed=obs, expected=exp)
 
